@@ -443,7 +443,7 @@ impl<'a, 'tcx> H<'a, 'tcx> {
             }
             o => {
                 out.kstr("lit", "other");
-                out.kstr("v", &format!("{:?}", o).chars().take(60).collect::<String>());
+                out.kstr("v", &format!("{:?}", o).chars().take(1200).collect::<String>());
             }
         }
     }
